@@ -24,6 +24,7 @@ import LdkModel.Driver.Util
 import LdkModel.Model.GossipAsync
 import LdkModel.Model.GossipPersist
 import LdkModel.Model.GossipOrder
+import LdkModel.Model.GossipRelay
 namespace Ldk.Driver
 open Ldk Ldk.Gossip
 open Ldk.Gossip.Impl (RgsNode RgsAnn RgsUpd)
@@ -170,6 +171,17 @@ def c17 : Drv where
       match c17Snapshot rest with
       | some s => let r := Impl.applySnapshot st.a.g s; (st.next { st.a with g := r.1 } none, c17ShowOutcome r.2)
       | none => (st, "bad-op")
+    | ["rl", "ca", e] => (st, c17B (Impl.relayOfKind .chanAnn (nat! e) 0))
+    | ["rl", "cu", e] => (st, c17B (Impl.relayOfKind .chanUpd (nat! e) 0))
+    | ["rl", "na", e, ea] => (st, c17B (Impl.relayOfKind .nodeAnn (nat! e) (nat! ea)))
+    | ["gc", start] =>
+      match Impl.nextChanAnn st.a.g (nat! start) with
+      | some (k, c) => (st, s!"{k} {c17B (Impl.servedUpdates c).1} {c17B (Impl.servedUpdates c).2}")
+      | none => (st, "none")
+    | ["gn", start] =>
+      match Impl.nextNodeAnn st.a.g (if start == "-" then none else some (nat! start)) with
+      | some (k, _) => (st, s!"{k}")
+      | none => (st, "none")
     | [k, x, now] =>
       -- fc / fn = permanent, tc / tn = non-permanent payment failure through handle_network_update
       let u : Option Impl.NetUpd :=
